@@ -59,10 +59,19 @@ func (w *World) others() []Obj {
 	add("BaseOperationProcessReasonError", false, base.NewBaseOperationProcessReason(w.Str("reason ")))
 	add("BlockItemFile/localfs", false, isaac.NewLocalFSBlockItemFile(w.Str("f")+".json.gz", ""))
 	add("BlockItemFile/remote", false, isaac.NewBlockItemFile(url.URL{Scheme: "https", Host: w.Str("h") + ".example.com", Path: "/" + w.Str("p")}, "gz"))
+	// remote item files: ports, userinfo, queries, fragments, escaped paths
+	add("BlockItemFile/remote-query-fragment", false, isaac.NewBlockItemFile(url.URL{Scheme: "https", Host: w.Str("h") + ".example.com:" + fmt.Sprint(w.R.Range(1024, 65000)), Path: "/" + w.Str("p") + "/b.json.gz", RawQuery: "a=" + w.Str("v") + "&b=1", Fragment: w.Str("frag-")}, "gz"))
+	add("BlockItemFile/remote-userinfo", false, isaac.NewBlockItemFile(url.URL{Scheme: "http", User: url.UserPassword(w.Str("u"), w.Str("p")), Host: "10.1.2.3:" + fmt.Sprint(w.R.Range(1024, 65000)), Path: "/a b/" + w.Str("x")}, ""))
+	add("BlockItemFile/remote-fragment-only", false, isaac.NewBlockItemFile(url.URL{Scheme: "https", Host: "a.b.c", Path: "/" + w.Str("x"), Fragment: w.Str("f")}, "bz2"))
+	add("BlockItemResponseHeader/uri-query-fragment", false, isaacnetwork.NewBlockItemResponseHeader(true, nil, url.URL{Scheme: "https", Host: "a.b.c:8443", Path: "/" + w.Str("x"), RawQuery: "k=" + w.Str("v"), Fragment: w.Str("f")}, "gz"))
 	items := map[base.BlockItemType]base.BlockItemFile{}
 	for _, t := range []base.BlockItemType{base.BlockItemMap, base.BlockItemProposal, base.BlockItemOperations, base.BlockItemVoteproofs, base.BlockItemStates} {
 		if t == base.BlockItemMap || t == base.BlockItemProposal || t == base.BlockItemVoteproofs || w.R.Chance(3, 4) {
-			items[t] = isaac.NewLocalFSBlockItemFile(w.Str("f")+".json", "")
+			if w.R.Chance(1, 3) {
+				items[t] = isaac.NewBlockItemFile(url.URL{Scheme: "https", Host: w.Str("h") + ".example.com", Path: "/" + w.Str("p"), RawQuery: "q=" + w.Str("v"), Fragment: w.Str("f")}, "gz")
+			} else {
+				items[t] = isaac.NewLocalFSBlockItemFile(w.Str("f")+".json", "")
+			}
 		}
 	}
 	add("BlockItemFiles", false, isaac.NewBlockItemFiles(items))
